@@ -361,6 +361,82 @@ theorem checkBlock_proj {P : Prog} {l : Leaf} (hl : P.lin l = true) {b : Blk} {s
   exact foldlM_proj l (checkStmt P) (Stmt.evs l) (Stmt.StaticOK P) (fun s s' st hs => checkStmt_proj hl hs)
     (P.stmts b) (initScope P b) s h
 
+/-! ### the path-independent rules, without reference to a leaf -/
+
+theorem foldlM_all {α : Type} (f : Scope → α → R Scope) (Q : α → Prop)
+    (hf : ∀ s s' a, f s a = .ok s' → Q a) :
+    ∀ (as : List α) (s s' : Scope), as.foldlM f s = .ok s' → ∀ a ∈ as, Q a := by
+  intro as
+  induction as with
+  | nil => intro s s' _ a ha; cases ha
+  | cons a as ih =>
+    intro s s' h
+    rw [List.foldlM_cons] at h
+    cases h1 : f s a with
+    | error e => rw [h1] at h; cases h
+    | ok s1 =>
+      rw [h1] at h
+      intro b hb
+      rcases List.mem_cons.mp hb with rfl | hb
+      · exact hf s s1 _ h1
+      · exact ih s1 s' h b hb
+
+theorem visitPlace_static {P : Prog} {borrow : Bool} {s s' : Scope} {p : Place}
+    (h : visitPlace P borrow s p = .ok s') : borrow = false → isInoutVar P p = false := by
+  unfold visitPlace at h
+  split at h
+  · cases h
+  · rename_i hc
+    intro hb
+    subst hb
+    simpa using hc
+
+theorem assignTargets_static {P : Prog} {s s' : Scope} {tgts : List Place}
+    (h : assignTargets P s tgts = .ok s') : ∀ t ∈ tgts, isInoutVar P t = false := by
+  unfold assignTargets at h
+  cases h1 : tgts.foldlM (assignTarget P) s with
+  | error e => simp [h1, bind, Except.bind] at h
+  | ok s1 =>
+    simp only [h1, bind, Except.bind] at h
+    split at h
+    · cases h
+    · rename_i hc
+      intro t ht
+      simp only [List.any_eq_true, not_exists, not_and] at hc
+      simpa using hc t ht
+
+theorem checkStmt_static {P : Prog} {s s' : Scope} {st : Stmt} (h : checkStmt P s st = .ok s') :
+    st.StaticOK P := by
+  cases st with
+  | move tgts srcs =>
+    simp only [checkStmt] at h
+    cases h1 : srcs.foldlM (visitPlace P false) s with
+    | error e => simp [h1, bind, Except.bind] at h
+    | ok s1 =>
+      simp only [h1, bind, Except.bind] at h
+      exact ⟨foldlM_all _ _ (fun s s' p hp => visitPlace_static hp rfl) srcs s s1 h1, assignTargets_static h⟩
+  | call tgts args d =>
+    simp only [checkStmt] at h
+    cases h1 : visitArgs P s args with
+    | error e => simp [h1, bind, Except.bind] at h
+    | ok s1 =>
+      simp only [h1, bind, Except.bind] at h
+      split at h
+      · cases h
+      · rename_i hd
+        exact ⟨foldlM_all (fun s (a : Arg) => visitPlace P a.isInout s a.place)
+            (fun a => a.isInout = false → isInoutVar P a.place = false)
+            (fun s s' a hp => visitPlace_static hp) args s s1 h1,
+          assignTargets_static h, by simpa using hd⟩
+  | ret srcs =>
+    simp only [checkStmt] at h
+    exact foldlM_all _ _ (fun s s' p hp => visitPlace_static hp rfl) srcs s s' h
+
+theorem checkBlock_static {P : Prog} {b : Blk} {s : Scope} (h : checkBlock P b = .ok s) :
+    ∀ st ∈ P.stmts b, st.StaticOK P := by
+  unfold checkBlock at h
+  exact foldlM_all _ _ (fun s s' st hs => checkStmt_static hs) (P.stmts b) _ s h
+
 /-! ### the bookkeeping simulates the ownership semantics -/
 
 /-- how the bookkeeping `c` of a block determines the ownership state `o`, given that the leaf
